@@ -4,10 +4,12 @@ Proof half: OPM.Properties.C24 — for the repaired write-buffer code (fixes/C24
 carries the value most recently commanded for its register (`no_stale_write`), every commanded value is in the
 hardware or still buffered with exactly that value (`never_lost`, `buffered_is_newest`), and after a write cycle
 whose hardware calls succeed the buffer is empty and every register holds its commanded value
-(`recovered_cycle_holds`).  `unrepaired_*` are the regression witnesses for the code as found.
+(`recovered_cycle_holds`); the same for every single write / write_batch call whose hardware calls — counted, not
+scripted — all succeeded, for ALL commanded registers (`successful_call_leaves_all_registers_current`).  `unrepaired_*` are the regression witnesses for the code as found.
 Tie half: the real decorator against the model with the full view (last written values, pending writes in dict
 order, fake hardware memory, physical writes of every op).
-Oracle: stated over the fake hardware's write log and memory and the values the engine commanded.
+Oracle: per register the newest commanded value over the whole history; (A) every physical write must carry it,
+(B) after every successful cycle / flush every commanded register must hold it — not only those of the call.
 """
 from __future__ import annotations
 
@@ -32,7 +34,7 @@ META = dict(
 )
 MODULE = "OPM.Properties.C24"
 REQUIRED = ["OPM.C24.no_stale_write", "OPM.C24.never_lost", "OPM.C24.buffered_is_newest",
-            "OPM.C24.recovered_cycle_holds", "OPM.C24.unrepaired_writes_stale_value",
+            "OPM.C24.recovered_cycle_holds", "OPM.C24.successful_call_leaves_all_registers_current", "OPM.C24.unrepaired_writes_stale_value",
             "OPM.C24.unrepaired_filter_loses_float"]
 
 T1, T2 = 80, 160
@@ -50,6 +52,7 @@ def _cycle(vb: int, vc: int, outcome: str, fl: str = "-") -> str:
 
 ALPHA = ([_cycle(vb, vc, o) for (vb, vc) in ((5, 1), (7, 1), (7, 2)) for o in ("ok", "0", "1")]
          + [_cycle(7, 1, "ok", "0"), "write\t3w\tn24\t1\t-", "write\t3w\tn24\t1\t0", "write\t2w\tn72\t0\t-",
+            "write\t4w\tn8\t1\t0", "writeb\t3w;4w\tn8;n8\tok\t-",
             "read\t0r\tF", "read\t0r\tn8", "tick\t1", "tick\t0", f"adv\t{T1 + 1}", f"adv\t{T2 + 1}"])
 PREFIXES = {
     "OK": [],
@@ -145,10 +148,24 @@ def gen_random(ctx: Check, n: int, malformed: bool) -> list[list[str]]:
 # ----------------------------------------------------------------------------------------------------------------
 # property oracle over the fake hardware (independent of the model)
 
+def _same(a, b) -> bool:
+    """equality of register values as the decorator's own filter defines it (numbers: math.isclose)"""
+    import math
+    num = lambda x: isinstance(x, (int, float)) and not isinstance(x, bool)
+    if num(a) and num(b):
+        return math.isclose(a, b)
+    return type(a) is type(b) and a == b
+
+
 def oracle(lines: list[str]) -> list[Failure]:
-    """(1) after a write cycle that succeeded at the hardware, every register of the cycle — and, when the cycle
-    covers every output register of the history, every output register — holds the value most recently commanded;
-    (2) no register receives a value after a value that was commanded later.
+    """Tracks, per register, the value most recently commanded over the whole history (`write` / `write_batch` calls
+    that returned without raising) and judges the fake hardware against it:
+    (A) no stale write: every value that physically reaches a register is the value most recently commanded for that
+        register at that moment — an older buffered value is stale whatever was or was not written before;
+    (B) no lost write: after every write cycle (`write_batch`, whichever registers it names) that reached the hardware
+        and whose hardware calls all succeeded (main call and every flush write actually attempted — counted by the
+        fake), and after every single write that flushed under the same condition, EVERY register that was ever
+        commanded holds its most recently commanded value.
     Histories with a duplicate register inside one batch are outside the property (engine cycles name each once)."""
     from harness import hwrec
     for ln in lines:
@@ -157,8 +174,8 @@ def oracle(lines: list[str]) -> list[Failure]:
             ids = [x[:-1] for x in hwrec.lst(f[1])]
             if len(ids) != len(set(ids)):
                 return []
-    cmds: dict[int, list] = {}            # register -> commanded values, in order (accepted calls only)
-    newest_written: dict[int, int] = {}   # register -> largest command index already seen in a physical write
+    latest: dict[int, object] = {}        # register -> most recently commanded value (accepted calls only)
+    history: dict[int, list] = {}         # register -> all commanded values, for the message only
     fails: list[Failure] = []
     seen_fault = [False]
 
@@ -178,32 +195,31 @@ def oracle(lines: list[str]) -> list[Failure]:
         elif kind == "writeb" and not raised:
             batch = [(int(r[:-1]), hwrec.tok_to_py(v)) for v, r in zip(hwrec.lst(f[2]), hwrec.lst(f[1]))]
         for r, v in batch:
-            cmds.setdefault(r, []).append(v)
-        # (2) the write log of this op
+            latest[r] = v
+            history.setdefault(r, []).append(v)
+        # (A) the write log of this op
         for r, v in last["writes"]:
-            hist = cmds.get(r, [])
-            idx = max((k for k, c in enumerate(hist) if c == v), default=None)
-            if idx is None:
-                bad("hardware-received-value-never-commanded", i, f"register {r} received {v!r}, commanded so far {hist!r}")
-                continue
-            if idx < newest_written.get(r, -1):
-                bad("stale-buffered-value-written-after-newer", i,
-                    f"register {r} received {v!r} (command #{idx}) after the value of command "
-                    f"#{newest_written[r]} ({hist[newest_written[r]]!r}) had been written")
-            newest_written[r] = max(newest_written.get(r, -1), idx)
-        # (1) a write cycle that reached the hardware and succeeded (main call and every flush call)
-        if kind == "writeb" and not raised and last["contact"] is True and "0" not in (f[4] if f[4] != "-" else ""):
-            regs = {r for r, _ in batch}
-            check = set(cmds) if regs >= set(cmds) else regs
-            for r in sorted(check):
-                want = cmds[r][-1]
+            if r not in latest:
+                bad("hardware-received-value-never-commanded", i, f"register {r} received {v!r}, nothing was commanded for it")
+            elif not _same(v, latest[r]):
+                known = any(_same(v, c) for c in history[r])
+                bad("stale-value-written-after-newer-command" if known else "hardware-received-value-never-commanded", i,
+                    f"register {r} received {v!r} although the most recently commanded value is {latest[r]!r} "
+                    f"(commanded so far: {history[r]!r})")
+        # (B) a write call that reached the hardware and whose hardware calls all succeeded
+        flushed = len(last["writes"]) > (1 if kind == "write" else 0)
+        if not raised and last["contact"] is True and not last["flush_fail"] \
+                and (kind == "writeb" or (kind == "write" and flushed)):
+            for r in sorted(latest):
+                want = latest[r]
                 have = last["mem"].get(f"R{r}", "<never written>")
-                if not (have == want):
+                if not _same(have, want):
                     why = ("float-over-nonnumeric-filtered" if isinstance(want, float) and not isinstance(have, (int, float))
                            else "after-fault" if seen_fault[0] else "no-fault")
-                    bad(f"register-not-holding-commanded-value-after-successful-cycle:{why}", i,
+                    named = "" if r in {x for x, _ in batch} else "-register-outside-the-call"
+                    bad(f"register-not-holding-commanded-value-after-successful-write:{why}{named}", i,
                         f"register {r} holds {have!r}, most recently commanded {want!r}")
-        if last["contact"] is False or last["reconn"] is False:
+        if last["contact"] is False or last["reconn"] is False or last["flush_fail"]:
             seen_fault[0] = True
 
     hwrec.run_impl(lines, observe)
@@ -219,7 +235,7 @@ def run(ctx: Check) -> int:
     rnd = gen_random(ctx, ctx.n(400, 8000), malformed=False)
     mal = gen_random(ctx, ctx.n(150, 3000), malformed=True)
     ctx.rule = ("op lines for the decorator with a scripted fake hardware (write memory + write log) and a virtual clock. "
-                f"exhaustive: every sequence of length <= {ctx.n(2, 3)} over 20 ops (write cycles over 2 registers with 3 "
+                f"exhaustive: every sequence of length <= {ctx.n(2, 3)} over 22 ops (write cycles over 2 registers with 3 "
                 "value pairs x {ok, fail before any write, fail after one write}, cycle with a failing flush, single writes "
                 "with ok/failing flush, failing single write, read ok/fail, tick reconnect ok/fail, advance past t1/t2) "
                 "from 4 start states (OK, Issue/Reconnect/Error each with buffered values), plus every pure write-cycle "
